@@ -870,6 +870,44 @@ def groups_twice_ref_defaults_and_shared_names(ctx):
                      repr([["a"], [["b"], ["a"]]]), kind="factory")
 
 
+def attributes_inline_or_by_group(ctx):
+    """Attributes declared inline on a type or factored into an attributeGroup it refers to: the type, a type derived
+    from it by extension, a simpleContent type and a simpleContent type derived from that one present the same members
+    in the same order under both renderings."""
+    T = "{%s}" % wsdlkit.TNS
+    attrs = ('<xsd:attribute name="a" type="xsd:string"/><xsd:attribute name="b" type="xsd:string"/><xsd:attribute '
+             'name="c" type="xsd:int"/>')
+    grp = '<xsd:attributeGroup name="G">%s</xsd:attributeGroup>' % attrs
+    f = ('<xsd:element name="f"><xsd:complexType><xsd:sequence><xsd:element name="d" type="x:D"/><xsd:element name="m" '
+         'type="x:M"/><xsd:element name="m2" type="x:M2"/></xsd:sequence></xsd:complexType></xsd:element>')
+
+    def schema(use_group, group_last):
+        at = '<xsd:attributeGroup ref="x:G"/>' if use_group else attrs
+        body = ('<xsd:complexType name="B"><xsd:sequence><xsd:element name="e" type="xsd:string"/></xsd:sequence>%s'
+                '</xsd:complexType><xsd:complexType name="D"><xsd:complexContent><xsd:extension base="x:B"><xsd:sequence>'
+                '<xsd:element name="e2" type="xsd:string"/></xsd:sequence><xsd:attribute name="z" type="xsd:string"/>'
+                '</xsd:extension></xsd:complexContent></xsd:complexType><xsd:complexType name="M"><xsd:simpleContent>'
+                '<xsd:extension base="xsd:decimal">%s</xsd:extension></xsd:simpleContent></xsd:complexType>'
+                '<xsd:complexType name="M2"><xsd:simpleContent><xsd:extension base="x:M"/></xsd:simpleContent>'
+                '</xsd:complexType>' % (at, at)) + f
+        if not use_group:
+            return body
+        return body + grp if group_last else grp + body
+    want = [["e", "_a", "_b", "_c"], ["e", "_a", "_b", "_c", "e2", "_z"], ["value", "_a", "_b", "_c"],
+            ["value", "_a", "_b", "_c"]]
+    for rname, sc in (("inline", schema(False, False)), ("group-first", schema(True, False)), ("group-last", schema(True, True))):
+        meta = {"stream": "attributes-inline-or-by-group", "rendering": rname}
+        ctx.case(common.canon(meta), True)
+        try:
+            c = wsdlkit.client(wsdlkit.wsdl_doc(sc, "f", None), nosend=True)
+            got = [[str(k) for k, _v in c.factory.create(T + n)] for n in ("B", "D", "M", "M2")]
+        except Exception as e:
+            got = "%s: %s" % (type(e).__name__, e)
+        if got != want:
+            ctx.fail("two renderings of one interface build different factory objects", meta, repr(got), repr(want),
+                     kind="factory")
+
+
 def prefix_numbering(ctx):
     """The generated prefixes (ns0, ns1, ...: what str(client) shows and factory.create('nsN:Type') understands) do not
     depend on the order in which a WSDL declares its schema blocks and types - with namespace sorting on or off."""
@@ -924,6 +962,7 @@ def run(ctx):
     nested_attribute_groups(ctx)
     two_port_types_with_one_operation_name(ctx)
     groups_twice_ref_defaults_and_shared_names(ctx)
+    attributes_inline_or_by_group(ctx)
     ctx.sample({"graph": [[1, [2, 3]], [2, [1]], [3, []]], "note": "D14 witness graph"})
 
 
